@@ -1,8 +1,240 @@
-(* C11 — REST API is fail-closed, authenticated and faithful. Statements only. *)
-From V Require Import Base.Common Base.C11_Http Gen.RestRoutes Gen.RestClient Model.C11_Rest Model.C11_Check Proofs.C11_Rest.
+(* C11 — REST API is fail-closed, authenticated and faithful to the request. Statements only; every proof is
+   `exact <lemma of Proofs/C11_*.v>`.
+   Quantification: every request (method, decoded path, query, pre-flight header), every environment: credentials
+   configured or not, every BasicAuth header outcome, every outcome of the abstract parsers (mux cleanPath, cid.Decode,
+   peer.Decode, go-path ParsePath, PinOptions.FromQuery, AddParamsFromQuery, the filters, the JSON body, the multipart
+   reader, the importer) and every RPC failure script. Route and client tables are the ones regenerated from
+   api/rest/restapi.go and api/rest/client/methods.go at this run (Gen/RestRoutes.v, Gen/RestClient.v).
+   Vocabulary (Proofs/C11_Rest.v): `routed rq e h vars` = the request passed the auth wrapper, is no CORS pre-flight, has a
+   canonical path and the router matched it to handler class h with path variables vars; `malformed h vars e` = a part the
+   handler must decode (CID, IPFS path, peer ID, pin options / add parameters, filter, body) is rejected by its parser;
+   `spec_expect` (Model/C11_Check.v, hand-written, independent of the handler code) = the operation the route names with
+   the rendered CID / path / peer / options of the environment; `performed calls exp` = calls are exp in order, each
+   successful except possibly the last one issued. *)
+From V Require Import Base.Common Base.C11_Http Gen.RestRoutes Gen.RestClient Model.C11_Rest Model.C11_Check Model.C11_Tables
+  Proofs.C11_Rest Proofs.C11_Client Proofs.C11_ClientC08.
+From V Require Model.C08_Codec Model.C08_Query Model.C08_Status.
+From Coq Require Import Permutation.
 Open Scope string_scope.
 Open Scope list_scope.
 
+(* ---- generated tables ---- *)
+
+(* routes(): the generated table is the hand-written one (method, template, handler class) *)
 Theorem rest_table_spec : compile_rest rest_routes = route_spec.
 Proof. exact routes_compile. Qed.
 Print Assumptions rest_table_spec.
+
+(* NewAPIWithHost: the basic-auth wrapper is outermost, then CORS, then the router (StrictSlash, notFoundHandler) *)
+Theorem rest_chain_spec : rest_handler_chain = ["basicAuthHandler"; "cors.New.Handler"; "router"]
+  /\ rest_server_handler = ["handlers.LoggingHandler"; "handler"]
+  /\ rest_strict_slash = true /\ rest_not_found = "notFoundHandler"
+  /\ rest_registration = ["Methods"; "Path"; "Name"; "Handler"].
+Proof. exact chain_is. Qed.
+Print Assumptions rest_chain_spec.
+
+(* every sendResponse with an explicit error status is followed by a return, in every handler and parse helper *)
+Theorem rest_error_sites_return :
+  forallb (fun f : string * list (string * string) * list string * list bool => forallb (fun b => b) (snd f)) rest_funcs = true.
+Proof. exact error_sites_all_return. Qed.
+Print Assumptions rest_error_sites_return.
+
+(* every route issues exactly the RPCs its name denotes: the RPC call sites found in the handler's source are the
+   hand-written ones for the route NAME, and every call the model's handler can make carries one of those names
+   (finite: over the 21 generated routes; vars, query and environment arbitrary) *)
+Theorem rest_route_ops name m pat hn : In (name, m, pat, hn) rest_routes ->
+  exists sites, sget name named_ops = Some sites /\ func_rpcs hn = Some sites /\
+    forall vars q e c, In c (rs_calls (handle (rhandler_of_name hn) vars q e)) -> In (fst (fst c)) (flat_map model_names sites).
+Proof. exact (route_ops_model name m pat hn). Qed.
+Print Assumptions rest_route_ops.
+
+(* ---- fail-closed and faithful ---- *)
+
+(* the spec function refuses exactly when a decoded part is malformed *)
+Theorem rest_refuse_iff_malformed h vars q e : spec_expect h vars q e = Refuse <-> malformed h vars e.
+Proof. exact (refuse_iff_malformed h vars q e). Qed.
+Print Assumptions rest_refuse_iff_malformed.
+
+(* a malformed part: 400, one JSON document, no cluster operation *)
+Theorem rest_fail_closed rq e h vars : routed rq e h vars -> malformed h vars e -> rest_run rq e = mk_rres [] 400 (Some 1%N) false.
+Proof. exact (fail_closed_l rq e h vars). Qed.
+Print Assumptions rest_fail_closed.
+
+(* every part well-formed: exactly the operation the route names, with exactly the CID / path / peer / options the
+   parsers produced; complete on a non-error answer; an error answer only after a failing cluster call (or, for /add,
+   a failing importer before anything was called) *)
+Theorem rest_wellformed_translated rq e h vars : routed rq e h vars -> ~ malformed h vars e ->
+  exists exp, spec_expect h vars (rr_query rq) e = Ops exp /\ ops_ok h e exp (rest_run rq e).
+Proof. exact (wellformed_translated_l rq e h vars). Qed.
+Print Assumptions rest_wellformed_translated.
+
+(* conversely: whenever anything at all was called, the request was routed, every decoded part was valid, and the calls
+   are those of the matched route *)
+Theorem rest_calls_exact rq e : rs_calls (rest_run rq e) <> [] ->
+  exists h vars exp, routed rq e h vars /\ ~ malformed h vars e /\ spec_expect h vars (rr_query rq) e = Ops exp
+    /\ ops_ok h e exp (rest_run rq e).
+Proof. exact (calls_exact_l rq e). Qed.
+Print Assumptions rest_calls_exact.
+
+(* never both a refusal and an operation: a 4xx answer none of whose calls failed in the cluster performed nothing *)
+Theorem rest_refused_no_call rq e : is4xx (rs_status (rest_run rq e)) = true -> any_failed (rs_calls (rest_run rq e)) = false ->
+  rs_calls (rest_run rq e) = [].
+Proof. exact (refused_no_call_l rq e). Qed.
+Print Assumptions rest_refused_no_call.
+
+(* the body is a single JSON document: one, or none (HEAD, 204, 405); unstated only for a 301 page (nothing called) and
+   for the NDJSON stream of POST /add with stream-channels=true — the documented exception, named *)
+Theorem rest_single_document rq e : docs_spec rq e (rest_run rq e).
+Proof. exact (single_document_l rq e). Qed.
+Print Assumptions rest_single_document.
+
+(* ---- authentication ---- *)
+
+(* credentials configured and no listed user/password pair in the request: 401 and nothing called, for EVERY method and
+   path — matched or not, redirect or not — and also for CORS pre-flights: the wrapper is outside the CORS handler in
+   this code (rest_chain_spec), so there is no exception *)
+Theorem rest_auth_total rq e : ~ listed_pair e ->
+  rs_calls (rest_run rq e) = [] /\ rs_status (rest_run rq e) = 401%N /\ rs_serr (rest_run rq e) = false
+  /\ (rs_ndocs (rest_run rq e) = Some 1%N \/ (rr_meth rq = "HEAD" /\ rs_ndocs (rest_run rq e) = Some 0%N)).
+Proof. exact (auth_total_l rq e). Qed.
+Print Assumptions rest_auth_total.
+
+(* authorized means exactly: no credentials configured, or the header decodes to a listed pair *)
+Theorem rest_authorized_iff e : authorized e = true <-> listed_pair e.
+Proof. exact (authorized_spec e). Qed.
+Print Assumptions rest_authorized_iff.
+
+(* and with a listed pair the wrapper changes nothing *)
+Theorem rest_auth_transparent rq e : listed_pair e -> rest_run rq e = rest_run rq (open_env e).
+Proof. exact (auth_transparent_l rq e). Qed.
+Print Assumptions rest_auth_transparent.
+
+(* ---- the boolean monitor applied to the implementation's observations ---- *)
+
+(* soundness: an observation that passes spec_okb_http satisfies the property for that request and environment *)
+Theorem rest_spec_okb_sound rq e o : spec_okb_http rq e o = true -> HttpSpec rq e o.
+Proof. exact (spec_okb_http_sound rq e o). Qed.
+Print Assumptions rest_spec_okb_sound.
+
+(* the model's own output always passes it (d: the document count where the model leaves it unstated), so an
+   implementation observation equal to the model's output satisfies the property *)
+Theorem rest_model_satisfies_spec rq e d : spec_okb_http rq e (robs_of d (rest_run rq e)) = true.
+Proof. exact (model_satisfies_http rq e d). Qed.
+Print Assumptions rest_model_satisfies_spec.
+
+(* ---- the bundled client ---- *)
+
+(* the generated client table is the hand-written one (HTTP method, path format, local flag), nothing more *)
+Theorem client_table_spec :
+  map (fun n => (n, client_entry n)) known_calls = map (fun r => (fst r, Some (snd r))) client_spec_table
+  /\ forallb (fun r : string * string * string => str_in (fst (fst r)) known_calls) client_requests = true.
+Proof. exact (conj client_table_is client_table_complete). Qed.
+Print Assumptions client_table_spec.
+
+(* every client method, any arguments: the request it builds, routed through the server model, performs exactly the
+   operation of that method with the arguments given, and the client returns what the server answered.
+   Guard (client_guard, explicit): CID / peer ID / metric name are single non-empty path segments, the IPFS path is
+   "/<ipfs|ipns|ipld>/<rest>" (rest non-empty; for PinPath not the single segment "recover"), Pin's CID is not "recover".
+   rt_ok: the server's parsers give back what the client's printers were given (instantiated by C08 below). *)
+Theorem client_faithful c e o f :
+  In (cc_name c) known_calls -> cauthorized e = true -> client_guard c -> rt_ok c e o f ->
+  arrives e (client_sent c e o f) (client_run c e).
+Proof. exact (client_faithful_l c e o f). Qed.
+Print Assumptions client_faithful.
+
+(* the guard cannot be dropped: PinPath("/ipns/recover") builds POST /pins/ipns/recover, which the router gives to the
+   Recover route (listed first) with hash = "ipns": 400, nothing arrives. Reproduced on the real client and API. *)
+Theorem client_faithful_pinpath_recover_refuted :
+  In (cc_name recover_call) known_calls /\ cauthorized recover_env = true /\ rt_ok recover_call recover_env "o" ""
+  /\ (exists p, cc_path recover_call = Some p /\ ipfs_path_ok false p)
+  /\ ~ arrives recover_env (client_sent recover_call recover_env "o" "") (client_run recover_call recover_env).
+Proof. exact pinpath_recover_refuted_l. Qed.
+Print Assumptions client_faithful_pinpath_recover_refuted.
+
+(* the guard excludes exactly the shape the correspondence check recognises as this known finding (tag 1), and the
+   witness above has that shape *)
+Theorem client_guard_excludes_finding :
+  (forall c, client_guard c -> is_recover_shadow c = false) /\ is_recover_shadow recover_call = true.
+Proof. exact (conj guard_excludes_shadow recover_shadow_witness). Qed.
+Print Assumptions client_guard_excludes_finding.
+
+(* composed with C08 query_roundtrip: Pin / PinPath carry the options given (minus metadata entries with the empty key),
+   for every oracle of the trusted parsers and every clock; guard wf_q (parsable texts, no ',' in peer strings) *)
+Theorem client_options_faithful render orc now o c e :
+  V.Model.C08_Query.wf_q orc o = true -> In (cc_name c) ["Pin"; "PinPath"] -> cauthorized e = true -> client_guard c ->
+  ce_rt_opts e = rt_opts_c08 render orc now o ->
+  (cc_name c = "Pin" -> ce_rt_cid e = Some (cc_cid c)) ->
+  (cc_name c = "PinPath" -> forall p, cc_path c = Some p -> ce_rt_path e = Some (trim_slash p)) ->
+  arrives e (client_sent c e (render (V.Model.C08_Query.lossy_q o)) "") (client_run c e).
+Proof. exact (client_options_faithful_l render orc now o c e). Qed.
+Print Assumptions client_options_faithful.
+
+(* composed with C08 tracker_status_names_roundtrip: the filter of StatusAll arrives unchanged, for every iteration
+   order of the Go map and every mask of defined status bits *)
+Theorem client_filter_faithful (render : N -> string) ord m c e :
+  Permutation ord V.Model.C08_Status.st_table -> V.Model.C08_Status.st_valid_mask m = true ->
+  cc_name c = "StatusAll" -> cc_filter c = Some (V.Model.C08_Status.status_string ord m) -> cauthorized e = true ->
+  ce_rt_filter e = Some (render (V.Model.C08_Status.status_from_string (V.Model.C08_Status.status_string ord m))) ->
+  arrives e [(if cc_local c then "Cluster.StatusAllLocal" else "Cluster.StatusAll", [render m])] (client_run c e).
+Proof. exact (client_filter_faithful_l render ord m c e). Qed.
+Print Assumptions client_filter_faithful.
+
+(* a client call without a listed pair performs nothing, whatever the call and its arguments *)
+Theorem client_unauthorized_no_op c e : cauthorized e = false ->
+  cr_calls (client_run c e) = [] /\ (cr_err (client_run c e) = 401%Z \/ cr_refused (client_run c e) = true).
+Proof. exact (client_unauth_l c e). Qed.
+Print Assumptions client_unauthorized_no_op.
+
+Theorem client_spec_okb_sound c e o : spec_okb_client c e o = true -> ClientSpec c e o.
+Proof. exact (spec_okb_client_sound c e o). Qed.
+Print Assumptions client_spec_okb_sound.
+
+Theorem client_model_satisfies_spec c e o f :
+  (cauthorized e = true -> In (cc_name c) known_calls /\ client_guard c /\ rt_ok c e o f /\ client_expected c = Some (client_sent c e o f)) ->
+  spec_okb_client c e (cobs_of (client_run c e)) = true.
+Proof. exact (client_model_satisfies_l c e o f). Qed.
+Print Assumptions client_model_satisfies_spec.
+
+(* ---- non-vacuity ---- *)
+Definition ex_env (creds : option (list (string * string))) (basic : option (string * string)) (popts : option string) : renv :=
+  mk_renv creds basic false [("QmCid", Some "QmCid"); ("bad", None)] [] [] popts None (Some "0") true BodyBad 0 true "" [].
+
+(* the input of S11 (valid CID, replication-min=x): refused, nothing called, one document *)
+Example rest_example_badopt :
+  let rq := mk_rreq "POST" "/pins/QmCid" [("replication-min", ["x"])] false in
+  let e := ex_env None None None in
+  routed rq e RPin [("hash", "QmCid")] /\ malformed RPin [("hash", "QmCid")] e /\ rest_run rq e = mk_rres [] 400 (Some 1%N) false.
+Proof. vm_compute. repeat split; try reflexivity. right; reflexivity. Qed.
+
+Example rest_example_pin :
+  let rq := mk_rreq "POST" "/pins/QmCid" [("name", ["n"])] false in
+  let e := ex_env None None (Some "name=n") in
+  ~ malformed RPin [("hash", "QmCid")] e /\
+  rest_run rq e = mk_rres [("Cluster.Pin", ["QmCid"; "name=n"; "-1"], false)] 200 (Some 1%N) false.
+Proof. split; [|vm_compute; reflexivity]. cbn. intros [H|H]; discriminate. Qed.
+
+(* credentials configured: a CORS pre-flight without a header, and a wrong password on an unknown path *)
+Example rest_example_auth :
+  let creds := Some [("alice", "wonderland")] in
+  ~ listed_pair (ex_env creds None None) /\ ~ listed_pair (ex_env creds (Some ("alice", "Wonderland")) None) /\
+  listed_pair (ex_env creds (Some ("alice", "wonderland")) None) /\
+  rest_run (mk_rreq "OPTIONS" "/pins/QmCid" [] true) (ex_env creds None None) = mk_rres [] 401 (Some 1%N) false /\
+  rest_run (mk_rreq "PUT" "/nowhere" [] false) (ex_env creds (Some ("alice", "Wonderland")) None) = mk_rres [] 401 (Some 1%N) false.
+Proof.
+  cbv zeta. repeat split; try (vm_compute; reflexivity).
+  - intros (u & p & H & _). discriminate.
+  - intros (u & p & H & Hin). inversion H; subst. cbn in Hin. destruct Hin as [Hin|[]]. discriminate.
+  - exists "alice", "wonderland". split; [reflexivity | left; reflexivity].
+Qed.
+
+Example client_example_pin :
+  let c := mk_ccall "Pin" false "QmCid" "" None "" None (Some ["QmCid"; "o"; "-1"]) in
+  let e := mk_cenv None None (Some "QmCid") None None (Some "o") None None "" [] "{}" in
+  client_run c e = mk_cres [("Cluster.Pin", ["QmCid"; "o"; "-1"], false)] 0 (Some "{}") false
+  /\ client_sent c e "o" "" = [("Cluster.Pin", ["QmCid"; "o"; "-1"])].
+Proof. vm_compute. split; reflexivity. Qed.
+
+Example client_example_guards :
+  let c := mk_ccall "PinPath" false "QmCid" "QmPeer" (Some "/ipfs/QmCid/a/b/") "ping" (Some "") None in
+  client_guard c /\ plain_seg "ping" /\ ~ plain_seg "a/b".
+Proof. exact client_guard_example. Qed.
